@@ -42,6 +42,35 @@ def run(repo, chk, tier):
         fw_family(repo, chk, tables)
         cross_preset(repo, chk, tables)
     transformer_per_call(repo, chk)
+    missing_share(repo, chk)
+
+
+def missing_share(repo, chk):
+    """C12.2n - the share compared with the NaN threshold counts NaN values and nothing else.  The operand of the comparison with
+    nan_prop_support is traced backwards (locals, parameters at their call sites, record fields, helper returns); a test for *finiteness*
+    in what it is computed from counts +-inf (log(0), overflow) as missing, which the statement does not."""
+    from .common import value_origins
+    m = repo.mod(RT)
+    thr = lambda x: isinstance(x, ast.Attribute) and x.attr == 'nan_prop_support'
+    n_cmp = 0
+    for f in ast.walk(m.tree):
+        if not isinstance(f, (ast.FunctionDef, ast.AsyncFunctionDef)):
+            continue
+        for c in ast.walk(f):
+            if not (isinstance(c, ast.Compare) and any(thr(x) for x in ast.walk(c))):
+                continue
+            n_cmp += 1
+            for o in [c.left] + list(c.comparators):
+                if any(thr(x) for x in ast.walk(o)):
+                    continue
+                for g, e in value_origins(m, f, o):
+                    d = (m.dotted(e.func) or '') if isinstance(e, ast.Call) else ''
+                    if d in ('numpy.isfinite', 'numpy.isinf', 'numpy.isneginf', 'numpy.isposinf', 'math.isfinite', 'math.isinf'):
+                        chk.bad('C12.2n', 'R14', m.relpath + f':{e.lineno} {g.name}', ast.unparse(e)[:100], 'the share compared with the NaN threshold is computed with a test for (in)finiteness: +inf / -inf results '
+                                '(log(0), overflow) are counted as missing, so a column with fewer than 75% NaN can be dropped; only NaN counts as missing')
+                        return
+    if n_cmp:
+        chk.ok('C12.2n', 'R14', m.relpath, f'{n_cmp} comparison(s) with nan_prop_support', 'nothing the compared share is computed from tests finiteness')
 
 
 # -- 1 ------------------------------------------------------------------------------------------
@@ -60,6 +89,88 @@ def _preorder(node):
     yield node
     for c in ast.iter_child_nodes(node):
         yield from _preorder(c)
+
+
+def vault_aliases(repo, chk, m):
+    """C12.1h - no preset table of the vault is ever written through.  In every function of the transformer module: what is looked up in
+    _tr_global_namespace (get / subscript / .values() / iteration) is a vault table; the mark follows plain bindings, elements of lists the tables are
+    collected in (append, [..], subscripts, loop targets) - and stops at a copy (dict(x), {**x}, x.copy(), x | y).  A mutating operation on a marked
+    object (update, [k] = v, pop, setdefault, clear, |=, del) changes the preset for every later transformer of the process."""
+    n_seen = 0
+    for f in m.funcs.values():
+        tables, boxes = set(), set()
+
+        def is_vault(e):
+            return any((isinstance(x, ast.Attribute) and x.attr == '_tr_global_namespace') or (isinstance(x, ast.Name) and x.id in vault_names) for x in ast.walk(e))
+
+        vault_names = {n.targets[0].id for n in own_nodes(f.node) if isinstance(n, ast.Assign) and len(n.targets) == 1 and isinstance(n.targets[0], ast.Name)
+                       and isinstance(n.value, (ast.Attribute, ast.Name)) and ast.unparse(n.value).endswith('_tr_global_namespace')}
+
+        def kind(e):
+            """'table' / 'box' (a list of tables) / None"""
+            if isinstance(e, ast.Name):
+                return 'table' if e.id in tables else 'box' if e.id in boxes else None
+            if isinstance(e, ast.Subscript):
+                if is_vault(e.value) and not isinstance(e.slice, ast.Slice):
+                    return 'table'
+                k = kind(e.value)
+                if k == 'box':
+                    return 'box' if isinstance(e.slice, ast.Slice) else 'table'
+                return None
+            if isinstance(e, ast.Call) and isinstance(e.func, ast.Attribute):
+                if e.func.attr in ('get', 'pop', 'setdefault') and is_vault(e.func.value) and not isinstance(e.func.value, ast.Call):
+                    return 'table'
+                if e.func.attr == 'values' and is_vault(e.func.value):
+                    return 'box'
+                return None
+            if isinstance(e, (ast.List, ast.Tuple)) and any(kind(x) == 'table' for x in e.elts):
+                return 'box'
+            if isinstance(e, ast.IfExp):
+                return kind(e.body) or kind(e.orelse)
+            if isinstance(e, ast.BoolOp):
+                return next((kind(v) for v in e.values if kind(v)), None)
+            if isinstance(e, (ast.ListComp, ast.GeneratorExp)) and len(e.generators) == 1:
+                return None
+            return None
+        changed = True
+        rounds = 0
+        while changed and rounds < 6:
+            changed, rounds = False, rounds + 1
+            for n in own_nodes(f.node):
+                if isinstance(n, (ast.Assign, ast.AnnAssign)) and n.value is not None:
+                    k = kind(n.value)
+                    for t in (n.targets if isinstance(n, ast.Assign) else [n.target]):
+                        if isinstance(t, ast.Name) and k:
+                            tgt = tables if k == 'table' else boxes
+                            if t.id not in tgt:
+                                tgt.add(t.id)
+                                changed = True
+                elif isinstance(n, ast.For) and isinstance(n.target, ast.Name) and kind(n.iter) == 'box' and n.target.id not in tables:
+                    tables.add(n.target.id)
+                    changed = True
+                elif isinstance(n, ast.Call) and isinstance(n.func, ast.Attribute) and n.func.attr in ('append', 'insert', 'extend') and isinstance(n.func.value, ast.Name) and n.args and \
+                        (kind(n.args[-1]) == 'table' or (n.func.attr == 'extend' and kind(n.args[-1]) == 'box')) and n.func.value.id not in boxes and n.func.value.id not in tables:
+                    boxes.add(n.func.value.id)
+                    changed = True
+        n_seen += len(tables) + len(boxes)
+        for n in own_nodes(f.node):
+            hit = None
+            if isinstance(n, ast.Call) and isinstance(n.func, ast.Attribute) and n.func.attr in ('update', 'pop', 'popitem', 'setdefault', 'clear', '__setitem__', '__delitem__') and kind(n.func.value) == 'table' \
+                    and not (n.func.attr in ('pop', 'setdefault') and is_vault(n.func.value)):
+                hit = n
+            elif isinstance(n, (ast.Assign, ast.AugAssign)):
+                for t in (n.targets if isinstance(n, ast.Assign) else [n.target]):
+                    if isinstance(t, ast.Subscript) and kind(t.value) == 'table':
+                        hit = n
+                    if isinstance(n, ast.AugAssign) and isinstance(n.op, ast.BitOr) and kind(n.target) == 'table':
+                        hit = n
+            elif isinstance(n, ast.Delete) and any(isinstance(t, ast.Subscript) and kind(t.value) == 'table' for t in n.targets):
+                hit = n
+            if hit is not None:
+                chk.bad('C12.1h', 'R11', f.site(hit), ast.unparse(hit).replace('\n', ' ')[:120], 'a preset table of the vault is written through (the object is the vault\'s own dictionary, reached without a copy): the preset is changed '
+                        'for every transformer built later in the process, so a later preset name no longer selects its own table')
+                return
+    chk.ok('C12.1h', 'R11', m.relpath, f'{len(m.funcs)} function(s), {n_seen} name(s) bound to vault tables', 'no vault table is written through')
 
 
 def presets(repo, chk):
@@ -125,9 +236,11 @@ def presets(repo, chk):
         # merging by .update(<preset>) is fine on a fresh dict of our own (the vault dict is only read)
         ok_u = len(c.args) == 1 and isinstance(c.args[0], ast.Name) and c.args[0].id in sub_names
         chk.expect(ok_u, 'C12.1c', 'R13', fn.site(c), ast.unparse(c)[:120], 'the preset is merged into the collection (the vault dict is only read)', 'the update of the collection does not merge the preset that was looked up', soft=True)
+    # "not found" is a statement about the shape of __init__ (it abstains when __init__ was restructured); what is found and wrong is decided by 1c / 1f / 1h
     chk.expect(len(before) == 1 and fresh_empty(before[0].value), 'C12.1d', 'R13', fn.site(before[0]) if before else fn.site(), ast.unparse(before[0]) if before else 'self.transformer_collection = dict()',
-               'the collection starts as a fresh empty dict before the loop', 'the collection must be initialised exactly once, before the loop, to a fresh empty dict')
-    chk.expect(bool(inside) or bool(updates), 'C12.1e', 'R13', fn.site(lp), 'merge of each preset', 'each preset is merged', 'presets are not merged into the collection')
+               'the collection starts as a fresh empty dict before the loop', 'the collection must be initialised exactly once, before the loop, to a fresh empty dict', soft=True)
+    chk.expect(bool(inside) or bool(updates), 'C12.1e', 'R13', fn.site(lp), 'merge of each preset', 'each preset is merged', 'presets are not merged into the collection', soft=True)
+    vault_aliases(repo, chk, m)
     # no vault dictionary may be mutated anywhere in the class module
     for f in m.funcs.values():
         for n in own_nodes(f.node):
